@@ -24,6 +24,19 @@ CHECKS = {
                 "the stated depth/width are outside the claim.",
         "technique": SOLVER_TECH,
     },
+    "C03": {
+        "level": "model_checking",
+        "text": "Bounded symbolic model checking of operator programs: every (binary operator, left operand kind, right operand "
+                "kind) incl. the special constants 0 1 -1 2 0.0 1.0 True False and a *symbolic* integer constant c, unary "
+                "operators, comparison/logical constructor methods and 3-atom chains are run twice per explored path - on "
+                "Variables through the real overloaded operators (tree then evaluated) and directly on the environment's z3 "
+                "proxies - and z3 proves equality for every environment and every c. A 2x2 symbolic matrix family decides "
+                "operand order of sums/products; ordering comparisons are asserted to raise TypeError.",
+        "design_ref": "DESIGN.md §4 C03",
+        "note": "Trusted: proxies' arithmetic model (self-tested per run), the uncached evaluator as the meaning of a tree "
+                "(itself checked by C02), z3. Integer and rational environments are separate families; floats are exact reals.",
+        "technique": SOLVER_TECH,
+    },
 }
 
 _PENDING = "check not built yet in this session (the design in DESIGN.md applies; will be claimed once its harness exists)"
